@@ -209,7 +209,7 @@ inline model::Obj object(Src& s, int type, const ObjOpts& o) {
             m.type = static_cast<int>(s.draw(3));
             m.ref = bint(s, INT64_MIN + 1, INT64_MAX, {0, 1LL << 32});
             m.role = str(s, o.strmode, o.max_str);
-            x.members.push_back(m);
+            x.members.push_back(std::move(m));
         }
     }
     return x;
